@@ -61,6 +61,10 @@ def purge_library_modules():
     the other scenarios showing the same kind (the defect usually also shows inside a single scenario)."""
     for k in [k for k in sys.modules if k == "aiocoap" or k.startswith("aiocoap.") or k == "tests" or k.startswith("tests.")]:
         del sys.modules[k]
+    # helper modules that keep a reference to an imported library module must forget it as well
+    env = sys.modules.get("simkit.oscore_env")
+    if env is not None and hasattr(env, "_STATE"):
+        env._STATE.pop("osc", None)
 
 
 def run_one(check, scn, want_events=False):
